@@ -12,13 +12,7 @@ def bitUnpack (m : Mode) (v : List Nat) (a b : Int) : M (Option Poly) := do
   let ab ← arith .i32 m "conversion.rs:bit_unpack:a+b" (a + b)
   let bl ← bitLen m ab
   if bl = 0 then throw (Fault.expect "conversion.rs:bit_unpack:bitlen") else
-  let step := fun (st : Int × Nat × List Int) (byte : Nat) => do
-    let (temp, bi, out) := st
-    let sh ← shl .i32 m "conversion.rs:bit_unpack:<<bit_index" (Int.ofNat byte) bi
-    let temp := bor .i32 temp sh
-    let (temp, bi, out) ← drainCoeffs m a b bl 8 temp (bi + 8) out
-    pure (temp, bi, out)
-  let (_, _, out) ← v.foldlM step (0, 0, [])
+  let (_, _, out) ← v.foldlM (unpackStep m a b bl) (0, 0, [])
   let w := out.reverse
   let w := w ++ List.replicate (256 - w.length) 0
   let bot := absI (b - 2 ^ bl + 1)
